@@ -55,7 +55,8 @@ Qed.
 (* the job a label acts on *)
 Definition job_of (l : label) : option nat :=
   match l with
-  | LSubCheck j | LSubAcquire j | LSubAppend j | LSubStart j | LSubRelease j | LSubWait j
+  | LSubCheck j | LSubAcquire j | LSubRecheck j | LSubUnlock j | LSubAppend j | LSubStart j
+  | LSubRelease j | LSubWait j
   | LPopen j _ | LExit j | LCommRet j _ | LCommTimeout j | LCommExc j | LFinally j
   | LSetResult j | LSdCancel _ j => Some j
   | _ => None
@@ -65,7 +66,9 @@ Definition job_of (l : label) : option nat :=
 Definition job_trans (fl : bool) (l : label) (jb jb' : job) : Prop :=
   match l with
   | LSubCheck _ => spc jb = SCheck /\ jb' = set_spc jb (if fl then SRejected else SAcquire)
-  | LSubAcquire _ => spc jb = SAcquire /\ jb' = set_spc jb SAppend
+  | LSubAcquire _ => spc jb = SAcquire /\ jb' = set_spc jb SRecheck
+  | LSubRecheck _ => spc jb = SRecheck /\ jb' = set_spc jb (if fl then SUnlock else SAppend)
+  | LSubUnlock _ => spc jb = SUnlock /\ jb' = set_spc jb SRejected
   | LSubAppend _ => spc jb = SAppend /\ jb' = set_spc jb SStart
   | LSubStart _ => spc jb = SStart /\ wpc jb = WNew /\
                    jb' = set_w (set_spc jb SRelease) WStarted (proc jb) (exc jb) (out jb) (sets jb)
@@ -106,7 +109,7 @@ Lemma step_jobs st l st' :
   | None => jobs st' = jobs st
   end.
 Proof.
-  destruct l; simpl; unfold on_job, on_sd; simpl; intros H.
+  destruct l; simpl; unfold on_job, on_sd; simpl; intros H; try discriminate.
   all: try (step_inv; simpl in *; eauto 10; fail).
   all: try (step_inv; simpl in *; do 2 eexists; split; [first [eassumption|reflexivity]|]; split; [reflexivity|]; auto; fail).
   step_inv; simpl in *. do 2 eexists; split; [first [eassumption|reflexivity]|]; split; [reflexivity|].
@@ -117,19 +120,20 @@ Qed.
 Definition sd_trans (st : state) (l : label) (s s' : sd) : Prop :=
   swait s' = swait s /\
   match l with
-  | LSdSet _ => dpc s = DSet /\ dpc s' = (if swait s then DSnap else DAcquire)
-  | LSdAcquire _ => dpc s = DAcquire /\ dpc s' = DCancel (reg st)
+  | LSdSet _ => dpc s = DSet /\ dpc s' = DAcquire
+  | LSdAcquire _ => dpc s = DAcquire /\ dpc s' = (if swait s then DSnap else DCancel (reg st))
   | LSdCancel _ j => exists pend pend', dpc s = DCancel pend /\ remove1 j pend = Some pend' /\ dpc s' = DCancel pend'
-  | LSdSnap _ => dpc s = DSnap /\ dpc s' = DJoin (reg st)
-  | LSdJoin _ => exists j rest, dpc s = DJoin (j :: rest) /\ finished st j = true /\ failed st j = false /\ dpc s' = DJoin rest
-  | LSdRaise _ => exists j rest, dpc s = DJoin (j :: rest) /\ finished st j = true /\ failed st j = true /\ dpc s' = DRaised
+  | LSdSnap _ => dpc s = DSnap /\ dpc s' = DUnlock (reg st)
+  | LSdRelease _ => exists pend, dpc s = DUnlock pend /\ dpc s' = DJoin pend
+  | LSdJoin _ => exists j rest, dpc s = DJoin (j :: rest) /\ finished st j = true /\ dpc s' = DJoin rest
   | LSdReturn _ => (dpc s = DCancel [] \/ dpc s = DJoin []) /\ dpc s' = DDone
   | _ => False
   end.
 
 Definition sd_of (l : label) : option nat :=
   match l with
-  | LSdSet k | LSdAcquire k | LSdCancel k _ | LSdSnap k | LSdJoin k | LSdRaise k | LSdReturn k => Some k
+  | LSdSet k | LSdAcquire k | LSdCancel k _ | LSdSnap k | LSdRelease k | LSdJoin k | LSdRaise k
+  | LSdReturn k => Some k
   | _ => None
   end.
 
@@ -141,12 +145,11 @@ Lemma step_globals st l st' :
   | None => sds st' = sds st
   end.
 Proof.
-  destruct l; simpl; unfold on_job, on_sd, sd_trans; simpl; intros H.
+  destruct l; simpl; unfold on_job, on_sd, sd_trans; simpl; intros H; try discriminate.
   all: try (step_inv; simpl in *; auto; fail).
   all: step_inv; simpl in *; (split; [reflexivity|]); do 2 eexists; (split; [reflexivity|]); (split; [reflexivity|]); simpl; repeat (split || eexists); eauto.
   all: try (rewrite Heqb; reflexivity).
-  all: apply andb_prop in Heqb; destruct Heqb as [Hf1 Hf2]; auto;
-       try (apply negb_true_iff in Hf2; auto).
+  all: rewrite Heqb0; reflexivity.
 Qed.
 
 (* ------------------------------------------------------------------ per-job invariant *)
@@ -363,12 +366,12 @@ Proof. intros; apply sum_mono; intros; apply rank_sd_mono; auto. Qed.
 Lemma sd_trans_rank st l s s' : sd_trans st l s s' -> rank_sd (phi st) s' < rank_sd (phi st) s.
 Proof.
   unfold sd_trans, rank_sd, phi. intros (_ & Ht). destruct l; try contradiction.
-  - destruct Ht as (-> & ->). destruct (swait s); lia.
   - destruct Ht as (-> & ->). lia.
+  - destruct Ht as (-> & ->). destruct (swait s); simpl; lia.
   - destruct Ht as (pend & pend' & -> & Hr & ->). apply remove1_length in Hr. lia.
   - destruct Ht as (-> & ->). lia.
-  - destruct Ht as (j & rest & -> & _ & _ & ->). simpl. lia.
-  - destruct Ht as (j & rest & -> & _ & _ & ->). simpl. lia.
+  - destruct Ht as (pend & -> & ->). lia.
+  - destruct Ht as (j & rest & -> & _ & ->). simpl. lia.
   - destruct Ht as ([-> | ->] & ->); simpl; lia.
 Qed.
 
@@ -431,11 +434,11 @@ Proof.
 Qed.
 
 Lemma rank_init tmos waits :
-  rank (init tmos waits) = 16 * length tmos + (5 + length tmos) * length waits.
+  rank (init tmos waits) = 17 * length tmos + (6 + length tmos) * length waits.
 Proof.
   unfold rank, phi, init; simpl.
-  rewrite (sum_const rank_job 16), (sum_const pre_append 1), !map_length.
-  - rewrite (sum_const _ (5 + 1 * length tmos)), map_length; [lia|].
+  rewrite (sum_const rank_job 17), (sum_const pre_append 1), !map_length.
+  - rewrite (sum_const _ (6 + 1 * length tmos)), map_length; [lia|].
     intros x Hx. apply in_map_iff in Hx. destruct Hx as (w & <- & _). reflexivity.
   - intros x Hx. apply in_map_iff in Hx. destruct Hx as (w & <- & _). reflexivity.
   - intros x Hx. apply in_map_iff in Hx. destruct Hx as (w & <- & _). reflexivity.
@@ -443,25 +446,15 @@ Qed.
 
 Lemma schedules_bounded tmos waits sched st :
   run (init tmos waits) sched = Some st ->
-  length sched <= 16 * length tmos + (5 + length tmos) * length waits.
+  length sched <= 17 * length tmos + (6 + length tmos) * length waits.
 Proof. intros H. apply run_rank in H. rewrite rank_init in H. lia. Qed.
 
-(* ------------------------------------------------------------------ the two refuted clauses: witnesses *)
-
-(* F5: submit tests the flag before taking the lock *)
-Definition witness_accept : list label :=
-  [LSubCheck 0; LSdSet 0; LSdAcquire 0; LSdReturn 0;
-   LSubAcquire 0; LSubAppend 0; LSubStart 0; LSubRelease 0; LPopen 0 true].
+(* ------------------------------------------------------------------ the refuted clause (F6): witness *)
 
 (* F6: cancel() is a no-op while self.process is None *)
 Definition witness_process : list label :=
-  [LSubCheck 0; LSubAcquire 0; LSubAppend 0; LSubStart 0; LSubRelease 0;
+  [LSubCheck 0; LSubAcquire 0; LSubRecheck 0; LSubAppend 0; LSubStart 0; LSubRelease 0;
    LSdSet 0; LSdAcquire 0; LSdCancel 0 0; LSdReturn 0; LPopen 0 true].
-
-(* join snapshot taken without the lock (wait=True) *)
-Definition witness_join : list label :=
-  [LSubCheck 0; LSubAcquire 0; LSdSet 0; LSdSnap 0; LSdReturn 0;
-   LSubAppend 0; LSubStart 0; LSubRelease 0; LPopen 0 true].
 
 Definition running (st : state) (j : nat) : bool :=
   match nth_error (jobs st) j with
@@ -474,18 +467,6 @@ Definition returned (st : state) (k : nat) : bool :=
   | None => false
   end.
 
-Lemma accept_after_shutdown_witness :
-  exists st, run (init [false] [false]) witness_accept = Some st /\
-             accepted_after_return witness_accept /\ spawned_after_return witness_accept /\
-             returned st 0 = true /\ running st 0 = true.
-Proof.
-  eexists. split; [vm_compute; reflexivity|]. split; [|split; [|split; reflexivity]].
-  - exists [LSubCheck 0; LSdSet 0; LSdAcquire 0; LSdReturn 0; LSubAcquire 0; LSubAppend 0],
-           [LSubRelease 0; LPopen 0 true], 0, 0. split; [reflexivity|]. simpl; auto.
-  - exists [LSubCheck 0; LSdSet 0; LSdAcquire 0; LSdReturn 0; LSubAcquire 0; LSubAppend 0; LSubStart 0; LSubRelease 0],
-           [], 0, 0. split; [reflexivity|]. simpl; auto.
-Qed.
-
 Lemma process_after_shutdown_witness :
   exists st, run (init [false] [false]) witness_process = Some st /\
              ~ accepted_after_return witness_process /\ spawned_after_return witness_process /\
@@ -496,25 +477,21 @@ Proof.
     unfold witness_process in Heq.
     repeat (destruct pre as [|? pre]; simpl in Heq; [inversion Heq; subst; simpl in Hin; intuition discriminate|
             inversion Heq; subst; clear Heq; rename H1 into Heq]).
-  - exists [LSubCheck 0; LSubAcquire 0; LSubAppend 0; LSubStart 0; LSubRelease 0; LSdSet 0; LSdAcquire 0; LSdCancel 0 0; LSdReturn 0],
-           [], 0, 0. split; [reflexivity|]. simpl; auto 10.
-Qed.
-
-Lemma join_snapshot_witness :
-  exists st, run (init [false] [true]) witness_join = Some st /\
-             accepted_after_return witness_join /\ returned st 0 = true /\ running st 0 = true.
-Proof.
-  eexists. split; [vm_compute; reflexivity|]. split; [|split; reflexivity].
-  exists [LSubCheck 0; LSubAcquire 0; LSdSet 0; LSdSnap 0; LSdReturn 0; LSubAppend 0],
-         [LSubRelease 0; LPopen 0 true], 0, 0. split; [reflexivity|]. simpl; auto 10.
+  - exists [LSubCheck 0; LSubAcquire 0; LSubRecheck 0; LSubAppend 0; LSubStart 0; LSubRelease 0; LSdSet 0; LSdAcquire 0; LSdCancel 0 0; LSdReturn 0],
+           [], 0, 0. split; [reflexivity|]. simpl; auto 12.
 Qed.
 
 (* ------------------------------------------------------------------ global invariant, deadlock-freedom *)
 
 Definition holding (p : spc_t) : bool :=
-  match p with SAppend | SStart | SRelease => true | _ => false end.
+  match p with SRecheck | SAppend | SStart | SRelease | SUnlock => true | _ => false end.
 Definition post_append (p : spc_t) : bool :=
   match p with SStart | SRelease | SWait | SGot _ => true | _ => false end.
+(* shutdown caller holds the lock *)
+Definition sd_holding (d : dpc_t) : bool :=
+  match d with DCancel _ | DSnap | DUnlock _ => true | _ => false end.
+Definition pend_of (d : dpc_t) : list nat :=
+  match d with DCancel l | DUnlock l | DJoin l => l | _ => [] end.
 
 Definition registered (st : state) (j : nat) : Prop :=
   exists jb, nth_error (jobs st) j = Some jb /\ post_append (spc jb) = true.
@@ -523,25 +500,24 @@ Record ginv (st : state) : Prop := {
   g_jobs : Forall job_ok (jobs st);
   g_hold : forall i jb, nth_error (jobs st) i = Some jb -> holding (spc jb) = true -> lock st = Some (OSub i);
   g_sub  : forall i, lock st = Some (OSub i) -> exists jb, nth_error (jobs st) i = Some jb /\ holding (spc jb) = true;
-  g_canc : forall k s l, nth_error (sds st) k = Some s -> dpc s = DCancel l -> lock st = Some (OSd k);
-  g_sd   : forall k, lock st = Some (OSd k) -> exists s l, nth_error (sds st) k = Some s /\ dpc s = DCancel l;
+  g_canc : forall k s, nth_error (sds st) k = Some s -> sd_holding (dpc s) = true -> lock st = Some (OSd k);
+  g_sd   : forall k, lock st = Some (OSd k) -> exists s, nth_error (sds st) k = Some s /\ sd_holding (dpc s) = true;
   g_reg  : forall j, In j (reg st) -> registered st j;
-  g_pend : forall k s l, nth_error (sds st) k = Some s -> (dpc s = DCancel l \/ dpc s = DJoin l) ->
-                         forall j, In j l -> registered st j
+  g_pend : forall k s, nth_error (sds st) k = Some s -> forall j, In j (pend_of (dpc s)) -> registered st j
 }.
 
 Lemma step_lock st l st' :
   step st l = Some st' ->
   match l with
   | LSubAcquire j => lock st = None /\ lock st' = Some (OSub j)
-  | LSubRelease _ => lock st' = None
+  | LSubRelease _ | LSubUnlock _ | LSdRelease _ => lock st' = None
   | LSdAcquire k => lock st = None /\ lock st' = Some (OSd k)
   | LSdReturn k => exists s, nth_error (sds st) k = Some s /\
                      ((dpc s = DCancel [] /\ lock st' = None) \/ (dpc s = DJoin [] /\ lock st' = lock st))
   | _ => lock st' = lock st
   end.
 Proof.
-  destruct l; simpl; unfold on_job, on_sd; simpl; intros H.
+  destruct l; simpl; unfold on_job, on_sd; simpl; intros H; try discriminate.
   all: step_inv; simpl in *; auto.
   all: try (destruct (lock st); simpl in *; [discriminate | auto]; fail).
   all: eexists; split; [reflexivity|]; auto.
@@ -550,10 +526,10 @@ Qed.
 Lemma job_trans_spc fl l jb jb' :
   job_trans fl l jb jb' ->
   (post_append (spc jb) = true -> post_append (spc jb') = true) /\
-  holding (spc jb') = (match l with LSubAcquire _ => true | LSubRelease _ => false | _ => holding (spc jb) end) /\
+  holding (spc jb') = (match l with LSubAcquire _ => true | LSubRelease _ | LSubUnlock _ => false | _ => holding (spc jb) end) /\
   (match l with
    | LSubAcquire _ => holding (spc jb) = false
-   | LSubRelease _ => holding (spc jb) = true
+   | LSubRelease _ | LSubUnlock _ => holding (spc jb) = true
    | LSubAppend _ => post_append (spc jb') = true
    | _ => True end).
 Proof.
@@ -562,6 +538,47 @@ Proof.
   all: repeat match goal with H : _ /\ _ |- _ => destruct H end; subst; simpl in *.
   all: try (destruct fl); try (destruct p; simpl in *); auto.
   all: destruct s; simpl in *; auto.
+Qed.
+
+Lemma sd_trans_hold st l s s' :
+  sd_trans st l s s' ->
+  sd_holding (dpc s') = (match l with LSdAcquire _ => true | LSdRelease _ | LSdReturn _ => false | _ => sd_holding (dpc s) end) /\
+  (match l with
+   | LSdAcquire _ => sd_holding (dpc s) = false
+   | LSdRelease _ => sd_holding (dpc s) = true
+   | _ => True end).
+Proof.
+  unfold sd_trans. intros (_ & Ht). destruct l; try contradiction.
+  all: repeat match goal with
+              | H : _ /\ _ |- _ => destruct H
+              | H : exists _, _ |- _ => destruct H
+              | H : _ \/ _ |- _ => destruct H
+              end.
+  all: repeat match goal with H : dpc _ = _ |- _ => rewrite H; clear H end; simpl; auto.
+  destruct (swait s); auto.
+Qed.
+
+Lemma remove1_In j l l' x : remove1 j l = Some l' -> In x l' -> In x l.
+Proof.
+  revert l'; induction l; simpl; intros l' H Hin; try discriminate.
+  destruct (Nat.eqb a j).
+  - inversion H; subst; auto.
+  - destruct (remove1 j l) eqn:E; try discriminate. inversion H; subst.
+    destruct Hin as [Hx|Hin]; [left; auto | right; eapply IHl; eauto].
+Qed.
+
+Lemma sd_trans_pend st l s s' j :
+  sd_trans st l s s' -> In j (pend_of (dpc s')) -> In j (pend_of (dpc s)) \/ In j (reg st).
+Proof.
+  unfold sd_trans. intros (_ & Ht) Hin. destruct l; try contradiction.
+  all: repeat match goal with
+              | H : _ /\ _ |- _ => destruct H
+              | H : exists _, _ |- _ => destruct H
+              end.
+  all: repeat match goal with H : dpc _ = _ |- _ => rewrite H in *; clear H end; simpl in *; auto.
+  - destruct (swait s); simpl in *; auto.
+  - left. eapply remove1_In; eauto.
+  - destruct H as [H|H]; rewrite H; simpl; auto.
 Qed.
 
 Lemma registered_step st l st' j : step st l = Some st' -> registered st j -> registered st' j.
@@ -574,26 +591,16 @@ Proof.
   - rewrite H; eauto.
 Qed.
 
-Lemma remove1_In j l l' x : remove1 j l = Some l' -> In x l' -> In x l.
-Proof.
-  revert l'; induction l; simpl; intros l' H Hin; try discriminate.
-  destruct (Nat.eqb a j).
-  - inversion H; subst; auto.
-  - destruct (remove1 j l) eqn:E; try discriminate. inversion H; subst.
-    destruct Hin as [Hx|Hin]; [left; auto | right; eapply IHl; eauto].
-Qed.
-
 Lemma init_ginv tmos waits : ginv (init tmos waits).
 Proof.
   constructor; simpl.
   - apply init_jobs_ok.
   - intros i jb Hn Hh. apply nth_error_In, in_map_iff in Hn. destruct Hn as (x & <- & _). discriminate.
   - discriminate.
-  - intros k s l Hn Hd. apply nth_error_In, in_map_iff in Hn. destruct Hn as (x & <- & _). discriminate.
+  - intros k s Hn Hd. apply nth_error_In, in_map_iff in Hn. destruct Hn as (x & <- & _). discriminate.
   - discriminate.
   - contradiction.
-  - intros k s l Hn Hd. apply nth_error_In, in_map_iff in Hn. destruct Hn as (x & <- & _).
-    destruct Hd; discriminate.
+  - intros k s Hn j Hd. apply nth_error_In, in_map_iff in Hn. destruct Hn as (x & <- & _). destruct Hd.
 Qed.
 
 (* the sd entry k after the step, in terms of the one before *)
@@ -623,90 +630,111 @@ Proof.
   - rewrite H in Hn. left. split; auto. discriminate.
 Qed.
 
+(* forward versions: the entry after the step, given the entry before *)
+Lemma step_job_fwd st l st' i jb :
+  step st l = Some st' -> nth_error (jobs st) i = Some jb ->
+  (nth_error (jobs st') i = Some jb /\ job_of l <> Some i) \/
+  (job_of l = Some i /\ exists jb', nth_error (jobs st') i = Some jb' /\ job_trans (flag st) l jb jb').
+Proof.
+  intros H Hn. apply step_jobs in H. destruct (job_of l) as [i0|].
+  - destruct H as (jb0 & jb1 & Hs & Hss & Ht). rewrite Hss, (nth_set_nth _ _ _ _ _ Hs).
+    destruct (Nat.eqb_spec i i0).
+    + subst. rewrite Hn in Hs; inversion Hs; subst. right. split; auto. eauto.
+    + left. split; auto. congruence.
+  - rewrite H. left. split; auto. discriminate.
+Qed.
+
+Lemma step_sd_fwd st l st' k s :
+  step st l = Some st' -> nth_error (sds st) k = Some s ->
+  (nth_error (sds st') k = Some s /\ sd_of l <> Some k) \/
+  (sd_of l = Some k /\ exists s', nth_error (sds st') k = Some s' /\ sd_trans st l s s').
+Proof.
+  intros H Hn. apply step_globals in H. destruct H as (_ & H). destruct (sd_of l) as [k0|].
+  - destruct H as (s0 & s1 & Hs & Hss & Ht). rewrite Hss, (nth_set_nth _ _ _ _ _ Hs).
+    destruct (Nat.eqb_spec k k0).
+    + subst. rewrite Hn in Hs; inversion Hs; subst. right. split; auto. eauto.
+    + left. split; auto. congruence.
+  - rewrite H. left. split; auto. discriminate.
+Qed.
+
+(* who changes the lock: only its owner releases it *)
+Definition lock_step (st : state) (l : label) (st' : state) : Prop :=
+  match l with
+  | LSubAcquire j => lock st = None /\ lock st' = Some (OSub j)
+  | LSdAcquire k => lock st = None /\ lock st' = Some (OSd k)
+  | LSubRelease j | LSubUnlock j => lock st = Some (OSub j) /\ lock st' = None
+  | LSdRelease k => lock st = Some (OSd k) /\ lock st' = None
+  | LSdReturn k => (lock st = Some (OSd k) /\ lock st' = None) \/
+                   (lock st' = lock st /\ lock st <> Some (OSd k))
+  | _ => lock st' = lock st
+  end.
+
+Lemma step_lock_owner st l st' : ginv st -> step st l = Some st' -> lock_step st l st'.
+Proof.
+  intros G H. pose proof (step_lock _ _ _ H) as HL.
+  pose proof (step_jobs _ _ _ H) as HJ. pose proof (step_globals _ _ _ H) as (_ & HG).
+  destruct l; simpl in *; auto.
+  - (* unlock *) destruct HJ as (jb & jb' & Hn & _ & Hs & _). split; auto.
+    eapply g_hold; eauto. rewrite Hs; reflexivity.
+  - (* release *) destruct HJ as (jb & jb' & Hn & _ & Hs & _). split; auto.
+    eapply g_hold; eauto. rewrite Hs; reflexivity.
+  - (* sd release *) destruct HG as (s & s' & Hn & _ & _ & pl & Hd & _). split; auto.
+    eapply g_canc; eauto. rewrite Hd; reflexivity.
+  - (* return *) destruct HL as (s & Hn & [(Hd & Hl) | (Hd & Hl)]).
+    + left. split; auto. eapply g_canc; eauto. rewrite Hd; reflexivity.
+    + right. split; auto. intros Hk. destruct (g_sd _ G _ Hk) as (s0 & Hn0 & Hh).
+      rewrite Hn in Hn0; inversion Hn0; subst. rewrite Hd in Hh. discriminate.
+Qed.
+
 Lemma step_ginv st l st' : ginv st -> step st l = Some st' -> ginv st'.
 Proof.
   intros G H.
-  pose proof (step_lock _ _ _ H) as HL.
+  pose proof (step_lock_owner _ _ _ G H) as HL.
   pose proof (step_globals _ _ _ H) as (HR & _).
-  pose proof (step_jobs _ _ _ H) as HJ.
   constructor.
   - eapply step_ok; eauto. apply G.
   - (* g_hold *)
     intros i jb' Hn Hh. destruct (step_job_at _ _ _ _ _ H Hn) as [(Ho & Hne) | (Hje & jb & Ho & Ht)].
     + pose proof (g_hold _ G _ _ Ho Hh) as Hl.
-      destruct l; simpl in *; try congruence.
-      * destruct HL; congruence.
-      * (* release by another job j: it held the lock too *)
-        destruct HJ as (jb0 & jb1 & Hn0 & _ & Hs & _).
-        assert (Hh0 : holding (spc jb0) = true) by (rewrite Hs; reflexivity).
-        pose proof (g_hold _ G _ _ Hn0 Hh0). assert (i = j) by congruence. congruence.
-      * destruct HL; congruence.
-      * destruct HL as (s & Hs & [(Hd & _) | (_ & Hl')]); [|congruence].
-        pose proof (g_canc _ G _ _ _ Hs Hd). congruence.
+      destruct l; simpl in HL, Hne; intuition congruence.
     + destruct (job_trans_spc _ _ _ _ Ht) as (_ & Hh' & Hx).
       destruct l; simpl in *; try discriminate; inversion Hje; subst;
-        try (rewrite Hh' in Hh; rewrite HL; eapply g_hold; eauto; fail).
-      * destruct HL; auto.
-      * rewrite Hh' in Hh. discriminate.
+        try (rewrite Hh' in Hh; try discriminate; rewrite HL; eapply g_hold; eauto; fail).
+      destruct HL; auto.
   - (* g_sub *)
     intros i Hl.
-    assert (Hcase : (lock st = Some (OSub i) /\ l <> LSubRelease i) \/ l = LSubAcquire i).
-    { destruct l; simpl in *; try (left; split; [congruence|discriminate]).
-      - destruct HL as (_ & HL). right. congruence.
-      - congruence.
-      - destruct HL; congruence.
-      - destruct HL as (s & _ & [(_ & Hx) | (_ & Hx)]); [congruence|]. left; split; [congruence|discriminate]. }
-    destruct Hcase as [(Hl0 & Hnr) | ->].
-    + destruct (g_sub _ G _ Hl0) as (jb & Hn & Hh).
-      pose proof (step_jobs _ _ _ H) as Hj. destruct (job_of l) as [i0|] eqn:Ej.
-      * destruct Hj as (jb0 & jb1 & Hn0 & Hjs & Ht). rewrite Hjs, (nth_set_nth _ _ _ _ _ Hn0).
-        destruct (Nat.eqb_spec i i0); eauto. subst i0. rewrite Hn in Hn0; inversion Hn0; subst jb0.
-        eexists; split; eauto. destruct (job_trans_spc _ _ _ _ Ht) as (_ & Hh' & _). rewrite Hh'.
-        destruct l; simpl in *; try discriminate; auto. inversion Ej; subst. congruence.
-      * rewrite Hj; eauto.
+    assert (Hcase : l = LSubAcquire i \/ (lock st = Some (OSub i) /\ lock st' = lock st)).
+    { destruct l; simpl in HL; try (right; intuition congruence; fail).
+      left. f_equal. intuition congruence. }
+    destruct Hcase as [-> | (Hl0 & Hsame)].
     + pose proof (step_jobs _ _ _ H) as Hj. simpl in Hj. destruct Hj as (jb0 & jb1 & Hn0 & Hjs & Hs & ->).
       rewrite Hjs, nth_set_nth_eq; [|apply nth_error_Some; congruence]. eexists; split; eauto.
+    + destruct (g_sub _ G _ Hl0) as (jb & Hn & Hh).
+      destruct (step_job_fwd _ _ _ _ _ H Hn) as [(Hn' & _) | (Hje & jb' & Hn' & Ht)]; eauto.
+      eexists; split; eauto. destruct (job_trans_spc _ _ _ _ Ht) as (_ & Hh' & _). rewrite Hh'.
+      destruct l; simpl in *; try discriminate; auto; inversion Hje; subst; intuition congruence.
   - (* g_canc *)
-    intros k s' pl Hn Hd. destruct (step_sd_at _ _ _ _ _ H Hn) as [(Ho & Hne) | (Hke & s & Ho & Ht)].
-    + pose proof (g_canc _ G _ _ _ Ho Hd) as Hl.
-      destruct l; simpl in *; try congruence.
-      * destruct HL; congruence.
-      * destruct HJ as (jb0 & jb1 & Hn0 & _ & Hs & _).
-        assert (Hh0 : holding (spc jb0) = true) by (rewrite Hs; reflexivity).
-        pose proof (g_hold _ G _ _ Hn0 Hh0). congruence.
-      * destruct HL; congruence.
-      * destruct HL as (s0 & Hs0 & [(Hd0 & _) | (_ & Hl')]); [|congruence].
-        pose proof (g_canc _ G _ _ _ Hs0 Hd0). assert (k = k0) by congruence. congruence.
-    + destruct Ht as (_ & Ht). destruct l; simpl in *; try discriminate; inversion Hke; subst.
-      * destruct Ht as (_ & Hd'). rewrite Hd in Hd'. destruct (swait s); discriminate.
-      * destruct HL; auto.
-      * destruct Ht as (p0 & p1 & Hd0 & _ & _). rewrite HL. eapply g_canc; eauto.
-      * destruct Ht as (_ & Hd'). congruence.
-      * destruct Ht as (? & ? & _ & _ & _ & Hd'). congruence.
-      * destruct Ht as (? & ? & _ & _ & _ & Hd'). congruence.
-      * destruct Ht as (_ & Hd'). congruence.
+    intros k s' Hn Hh. destruct (step_sd_at _ _ _ _ _ H Hn) as [(Ho & Hne) | (Hke & s & Ho & Ht)].
+    + pose proof (g_canc _ G _ _ Ho Hh) as Hl.
+      destruct l; simpl in HL, Hne; intuition congruence.
+    + destruct (sd_trans_hold _ _ _ _ Ht) as (Hh' & Hx).
+      destruct l; simpl in *; try discriminate; inversion Hke; subst;
+        try (rewrite Hh' in Hh; try discriminate; rewrite HL; eapply g_canc; eauto; fail).
+      destruct HL; auto.
   - (* g_sd *)
     intros k Hl.
-    assert (Hcase : (lock st = Some (OSd k) /\ l <> LSdReturn k) \/ l = LSdAcquire k).
-    { destruct l; simpl in *; try (left; split; [congruence|discriminate]).
-      - destruct HL; congruence.
-      - destruct HL as (_ & HL). right. congruence.
-      - destruct HL as (s & Hs & [(_ & Hx) | (Hd & Hx)]); [congruence|].
-        left. split; [congruence|]. intros He. inversion He; subst.
-        destruct (g_sd _ G k) as (s1 & l1 & Hs1 & Hd1); congruence. }
-    destruct Hcase as [(Hl0 & Hnr) | ->].
-    + destruct (g_sd _ G _ Hl0) as (s & pl & Hn & Hd).
-      pose proof (step_globals _ _ _ H) as (_ & Hs). destruct (sd_of l) as [k0|] eqn:Ek.
-      * destruct Hs as (s0 & s1 & Hn0 & Hss & Ht). rewrite Hss, (nth_set_nth _ _ _ _ _ Hn0).
-        destruct (Nat.eqb_spec k k0); eauto. subst k0. rewrite Hn in Hn0; inversion Hn0; subst s0.
-        destruct Ht as (_ & Ht). destruct l; simpl in *; try discriminate; inversion Ek; subst;
-          try (destruct Ht as (Hd0 & _); congruence);
-          try (destruct Ht as (? & ? & Hd0 & _); congruence).
-        -- destruct Ht as (p0 & p1 & _ & _ & Hd1). eauto.
-      * rewrite Hs; eauto.
+    assert (Hcase : l = LSdAcquire k \/ (lock st = Some (OSd k) /\ lock st' = lock st)).
+    { destruct l; simpl in HL; try (right; intuition congruence; fail).
+      left. f_equal. intuition congruence. }
+    destruct Hcase as [-> | (Hl0 & Hsame)].
     + pose proof (step_globals _ _ _ H) as (_ & Hs). simpl in Hs.
-      destruct Hs as (s0 & s1 & Hn0 & Hss & _ & _ & Hd1).
-      rewrite Hss, nth_set_nth_eq; [|apply nth_error_Some; congruence]. eauto.
+      destruct Hs as (s0 & s1 & Hn0 & Hss & Ht).
+      rewrite Hss, nth_set_nth_eq; [|apply nth_error_Some; congruence]. eexists; split; eauto.
+      apply (sd_trans_hold _ _ _ _ Ht).
+    + destruct (g_sd _ G _ Hl0) as (s & Hn & Hh).
+      destruct (step_sd_fwd _ _ _ _ _ H Hn) as [(Hn' & _) | (Hke & s' & Hn' & Ht)]; eauto.
+      eexists; split; eauto. destruct (sd_trans_hold _ _ _ _ Ht) as (Hh' & _). rewrite Hh'.
+      destruct l; simpl in *; try discriminate; auto; inversion Hke; subst; intuition congruence.
   - (* g_reg *)
     intros j Hin. rewrite HR in Hin.
     assert (Hold : In j (reg st) \/ l = LSubAppend j).
@@ -717,22 +745,10 @@ Proof.
       exists (set_spc jb0 SStart). split; [|reflexivity].
       rewrite Hjs, nth_set_nth_eq; auto. apply nth_error_Some; congruence.
   - (* g_pend *)
-    intros k s' pl Hn Hd j Hin.
+    intros k s' Hn j Hin. eapply registered_step; eauto.
     destruct (step_sd_at _ _ _ _ _ H Hn) as [(Ho & Hne) | (Hke & s & Ho & Ht)].
-    + eapply registered_step; eauto. eapply g_pend; eauto.
-    + eapply registered_step; eauto. destruct Ht as (_ & Ht).
-      destruct l; simpl in *; try discriminate; inversion Hke; subst.
-      * destruct Ht as (_ & Hd'). rewrite Hd' in Hd. destruct (swait s); destruct Hd; discriminate.
-      * destruct Ht as (_ & Hd'). rewrite Hd' in Hd. destruct Hd as [Hd|Hd]; inversion Hd; subst.
-        eapply g_reg; eauto.
-      * destruct Ht as (p0 & p1 & Hd0 & Hr & Hd'). rewrite Hd' in Hd. destruct Hd as [Hd|Hd]; inversion Hd; subst.
-        eapply g_pend; eauto. eapply remove1_In; eauto.
-      * destruct Ht as (_ & Hd'). rewrite Hd' in Hd. destruct Hd as [Hd|Hd]; inversion Hd; subst.
-        eapply g_reg; eauto.
-      * destruct Ht as (j0 & rest & Hd0 & _ & _ & Hd'). rewrite Hd' in Hd. destruct Hd as [Hd|Hd]; inversion Hd; subst.
-        eapply g_pend; eauto. simpl; auto.
-      * destruct Ht as (j0 & rest & Hd0 & _ & _ & Hd'). rewrite Hd' in Hd. destruct Hd; discriminate.
-      * destruct Ht as (_ & Hd'). rewrite Hd' in Hd. destruct Hd; discriminate.
+    + eapply g_pend; eauto.
+    + destruct (sd_trans_pend _ _ _ _ _ Ht Hin); [eapply g_pend | eapply g_reg]; eauto.
 Qed.
 
 Lemma run_ginv sched : forall st st', ginv st -> run st sched = Some st' -> ginv st'.
@@ -747,7 +763,7 @@ Qed.
 Definition job_final (jb : job) : Prop :=
   match spc jb with SGot _ | SRejected => True | _ => False end.
 Definition sd_final (s : sd) : Prop :=
-  match dpc s with DDone | DRaised => True | _ => False end.
+  match dpc s with DDone => True | _ => False end.
 
 Definition can_step (st : state) : Prop := exists l st', step st l = Some st'.
 
@@ -759,16 +775,22 @@ Proof.
   - destruct (g_sub _ G _ El) as (jb & Hn & Hh).
     pose proof (Forall_nth _ _ _ _ (g_jobs _ G) Hn) as Hok.
     destruct (spc jb) eqn:Es; try discriminate.
+    + fire (LSubRecheck i). rewrite Hn, Es. eauto.
     + fire (LSubAppend i). rewrite Hn, Es. eauto.
     + assert (Hw : wpc jb = WNew).
       { unfold job_ok, started_spc in Hok. rewrite Es in Hok.
         destruct (wpc jb); auto; intuition (try congruence; try discriminate). }
       fire (LSubStart i). rewrite Hn, Es, Hw. eauto.
     + fire (LSubRelease i). rewrite Hn, Es. eauto.
-  - destruct (g_sd _ G _ El) as (s & pl & Hn & Hd). destruct pl as [|j r].
-    + fire (LSdReturn k). rewrite Hn, Hd. eauto.
-    + destruct (g_pend _ G _ _ _ Hn (or_introl Hd) j (or_introl eq_refl)) as (jb & Hj & _).
-      fire (LSdCancel k j). rewrite Hn, Hd. simpl. rewrite Nat.eqb_refl, Hj. eauto.
+    + fire (LSubUnlock i). rewrite Hn, Es. eauto.
+  - destruct (g_sd _ G _ El) as (s & Hn & Hd). destruct (dpc s) as [| |pl| |pl|pl|] eqn:Ed; try discriminate.
+    + destruct pl as [|j r].
+      * fire (LSdReturn k). rewrite Hn, Ed. eauto.
+      * assert (Hin : In j (pend_of (dpc s))) by (rewrite Ed; simpl; auto).
+        destruct (g_pend _ G _ _ Hn j Hin) as (jb & Hj & _).
+        fire (LSdCancel k j). rewrite Hn, Ed. simpl. rewrite Nat.eqb_refl, Hj. eauto.
+    + fire (LSdSnap k). rewrite Hn, Ed. eauto.
+    + fire (LSdRelease k). rewrite Hn, Ed. eauto.
 Qed.
 
 Lemma worker_moves st j jb :
@@ -790,6 +812,7 @@ Proof.
   - destruct (lock st) eqn:El.
     + apply holder_moves; auto. congruence.
     + fire (LSubAcquire j). rewrite El. simpl. rewrite Hn, Es. eauto.
+  - fire (LSubRecheck j). rewrite Hn, Es. eauto.
   - fire (LSubAppend j). rewrite Hn, Es. eauto.
   - assert (Hw : wpc jb = WNew).
     { unfold job_ok, started_spc in Hok. rewrite Es in Hok.
@@ -804,6 +827,7 @@ Proof.
     + eapply worker_moves; eauto; congruence.
     + assert (Hs : sets jb = 1) by (unfold job_ok in Hok; rewrite Ew in Hok; intuition).
       fire (LSubWait j). rewrite Hn, Es, Hs. simpl. eauto.
+  - fire (LSubUnlock j). rewrite Hn, Es. eauto.
 Qed.
 
 Lemma sd_moves st k s :
@@ -814,20 +838,20 @@ Proof.
   - destruct (lock st) eqn:El.
     + apply holder_moves; auto. congruence.
     + fire (LSdAcquire k). rewrite El. simpl. rewrite Hn, Ed. eauto.
-  - apply holder_moves; auto. rewrite (g_canc _ G _ _ _ Hn Ed). discriminate.
-  - fire (LSdSnap k). rewrite Hn, Ed. eauto.
+  - apply holder_moves; auto. rewrite (g_canc _ G _ _ Hn); [discriminate | rewrite Ed; reflexivity].
+  - apply holder_moves; auto. rewrite (g_canc _ G _ _ Hn); [discriminate | rewrite Ed; reflexivity].
+  - apply holder_moves; auto. rewrite (g_canc _ G _ _ Hn); [discriminate | rewrite Ed; reflexivity].
   - destruct pending as [|j r].
     + fire (LSdReturn k). rewrite Hn, Ed. eauto.
-    + destruct (g_pend _ G _ _ _ Hn (or_intror Ed) j (or_introl eq_refl)) as (jb & Hj & Hp).
+    + assert (Hin : In j (pend_of (dpc s))) by (rewrite Ed; simpl; auto).
+      destruct (g_pend _ G _ _ Hn j Hin) as (jb & Hj & Hp).
       pose proof (Forall_nth _ _ _ _ (g_jobs _ G) Hj) as Hok.
       destruct (spc jb) eqn:Es; try discriminate;
         try (eapply job_moves; eauto; unfold job_final; rewrite Es; auto; fail).
       assert (Hs : sets jb = 1).
       { unfold job_ok, started_spc in Hok. rewrite Es in Hok.
         destruct (wpc jb); intuition (try congruence; try discriminate). }
-      destruct (exc jb) eqn:Ee.
-      * fire (LSdRaise k). rewrite Hn, Ed. unfold finished, failed. rewrite Hj, Hs, Ee. simpl. eauto.
-      * fire (LSdJoin k). rewrite Hn, Ed. unfold finished, failed. rewrite Hj, Hs, Ee. simpl. eauto.
+      fire (LSdJoin k). rewrite Hn, Ed. unfold finished. rewrite Hj, Hs. simpl. eauto.
 Qed.
 
 Definition reachable (tmos waits : list bool) (st : state) : Prop :=
@@ -855,7 +879,7 @@ Lemma quiescent_exactly_once tmos waits sched st :
   (forall j jb, nth_error (jobs st) j = Some jb ->
      (spc jb = SRejected /\ wpc jb = WNew /\ deliveries j sched = 0 /\ proc jb = PNone) \/
      (spc jb = SGot (low_level jb) /\ wpc jb = WDone /\ deliveries j sched = 1 /\ proc jb <> PRun)) /\
-  (forall k s, nth_error (sds st) k = Some s -> dpc s = DDone \/ dpc s = DRaised).
+  (forall k s, nth_error (sds st) k = Some s -> dpc s = DDone).
 Proof.
   intros Hrun Hq.
   assert (G : ginv st) by (eapply run_ginv; [apply init_ginv|eauto]).
@@ -907,7 +931,7 @@ Lemma all_labels_complete st l st' : step st l = Some st' -> In l (all_labels st
 Proof.
   intros H. pose proof (step_jobs _ _ _ H) as HJ. pose proof (step_globals _ _ _ H) as (_ & HG).
   unfold all_labels.
-  destruct l; simpl in HJ, HG;
+  destruct l; try (simpl in H; discriminate); simpl in HJ, HG;
     try (destruct HJ as (jb & jb' & Hn & _);
          apply in_or_app; left; apply in_flat_map; exists j; split;
          [apply in_seq; split; [lia|]; simpl; apply nth_error_Some; congruence|];
@@ -942,11 +966,11 @@ Qed.
 Lemma no_deadlock_run tmos waits sched st :
   run (init tmos waits) sched = Some st ->
   (exists j jb, nth_error (jobs st) j = Some jb /\ spc jb <> SRejected /\ (forall v, spc jb <> SGot v)) \/
-  (exists k s, nth_error (sds st) k = Some s /\ dpc s <> DDone /\ dpc s <> DRaised) ->
+  (exists k s, nth_error (sds st) k = Some s /\ dpc s <> DDone) ->
   exists l st', step st l = Some st'.
 Proof.
   intros Hrun Hc. apply (no_deadlock tmos waits); [exists sched; auto|].
-  destruct Hc as [(j & jb & Hn & H1 & H2) | (k & s & Hn & H1 & H2)]; [left|right].
+  destruct Hc as [(j & jb & Hn & H1 & H2) | (k & s & Hn & H1)]; [left|right].
   - exists j, jb. split; auto. unfold job_final. destruct (spc jb); auto; try congruence.
   - exists k, s. split; auto. unfold sd_final. destruct (dpc s); auto; congruence.
 Qed.
@@ -958,7 +982,7 @@ Lemma wait_returns tmos waits sched st :
     (forall j jb, nth_error (jobs st') j = Some jb ->
        (spc jb = SRejected /\ deliveries j (sched ++ ext) = 0) \/
        (spc jb = SGot (low_level jb) /\ deliveries j (sched ++ ext) = 1)) /\
-    (forall k s, nth_error (sds st') k = Some s -> dpc s = DDone \/ dpc s = DRaised).
+    (forall k s, nth_error (sds st') k = Some s -> dpc s = DDone).
 Proof.
   intros Hrun. destruct (extends_to_quiescent st) as (ext & st' & He & Hq).
   exists ext, st'.
@@ -980,14 +1004,6 @@ Proof.
   intros v Hs. apply Hv in Hs. subst. split; [reflexivity|discriminate].
 Qed.
 
-Lemma no_accept_after_shutdown_refuted :
-  exists tmos waits sched st,
-    run (init tmos waits) sched = Some st /\ accepted_after_return sched.
-Proof.
-  destruct accept_after_shutdown_witness as (st & Hr & Ha & _).
-  exists [false], [false], witness_accept, st. auto.
-Qed.
-
 Lemma no_process_after_shutdown_refuted :
   exists tmos waits sched st k j,
     run (init tmos waits) sched = Some st /\ ~ accepted_after_return sched /\
@@ -997,61 +1013,622 @@ Proof.
   exists [false], [false], witness_process, st, 0, 0. auto.
 Qed.
 
-(* shutdown(wait=True) re-raises the exception of a failed / timed-out job out of _join
-   and abandons the jobs it has not waited for yet *)
-Definition witness_raise : list label :=
-  [LSubCheck 0; LSubAcquire 0; LSubAppend 0; LSubStart 0; LSubRelease 0;
-   LSubCheck 1; LSubAcquire 1; LSubAppend 1; LSubStart 1; LSubRelease 1;
-   LPopen 0 true; LPopen 1 true; LCommTimeout 0; LFinally 0; LSetResult 0;
-   LSdSet 0; LSdSnap 0; LSdRaise 0].
 
-Definition raisedb (st : state) (k : nat) : bool :=
-  match nth_error (sds st) k with
-  | Some s => match dpc s with DRaised => true | _ => false end
-  | None => false
-  end.
+(* ------------------------------------------------------------------ after a shutdown request: the repaired clauses *)
 
-Lemma shutdown_wait_raises_refuted :
-  exists tmos sched st,
-    run (init tmos [true]) sched = Some st /\ shutdown_raised 0 sched /\
-    ~ accepted_after_return sched /\ raisedb st 0 = true /\ running st 1 = true /\
-    forall ext st', run st ext = Some st' -> raisedb st' 0 = true.
+Lemma run_split st a l b st' :
+  run st (a ++ l :: b) = Some st' ->
+  exists s1 s2, run st a = Some s1 /\ step s1 l = Some s2 /\ run s2 b = Some st'.
 Proof.
-  exists [true; false], witness_raise. eexists. split; [vm_compute; reflexivity|].
-  split; [unfold shutdown_raised, witness_raise; simpl; auto 20|].
-  split.
-  { intros (pre & post & j & k & Heq & Hin). unfold witness_raise in Heq.
-    repeat (destruct pre as [|? pre]; simpl in Heq; [inversion Heq; subst; simpl in Hin; intuition discriminate|
-            inversion Heq; subst; clear Heq; rename H1 into Heq]). }
-  split; [reflexivity|]. split; [reflexivity|].
-  (* DRaised is terminal: no label moves shutdown caller 0 any more *)
-  assert (Hstep : forall s l s', raisedb s 0 = true -> step s l = Some s' -> raisedb s' 0 = true).
-  { intros s l s' Hr Hs. apply step_globals in Hs. destruct Hs as (_ & Hs).
-    unfold raisedb in *. destruct (sd_of l) as [k|].
-    - destruct Hs as (x & x' & Hn & Hss & Ht). rewrite Hss.
-      destruct (Nat.eqb_spec 0 k).
-      + subst k. rewrite Hn in Hr. exfalso. unfold sd_trans in Ht. destruct Ht as (_ & Ht).
-        destruct (dpc x) eqn:Ed; try discriminate.
-        destruct l; try contradiction;
-          repeat match goal with
-                 | H : _ /\ _ |- _ => destruct H
-                 | H : exists _, _ |- _ => destruct H
-                 | H : _ \/ _ |- _ => destruct H
-                 end; congruence.
-      + rewrite nth_set_nth_neq; auto.
-    - rewrite Hs; auto. }
-  intros ext. induction ext as [|l ext IH] using rev_ind; intros st' Hrun.
-  - simpl in Hrun. inversion Hrun; subst. reflexivity.
-  - rewrite run_app in Hrun. destruct (run _ ext) eqn:E; try discriminate.
-    simpl in Hrun. destruct (step s l) eqn:Es; try discriminate. inversion Hrun; subst.
-    eapply Hstep; [|eauto]. apply IH. reflexivity.
+  rewrite run_app. destruct (run st a) as [s1|]; try discriminate. simpl.
+  destruct (step s1 l) as [s2|] eqn:E; try discriminate. eauto.
 Qed.
 
-Lemma join_misses_accepted_job_refuted :
-  exists sched st,
-    run (init [false] [true]) sched = Some st /\ accepted_after_return sched /\
-    returned st 0 = true /\ running st 0 = true.
+Lemma run_In st sched st' l :
+  run st sched = Some st' -> In l sched ->
+  exists a b s1 s2, sched = a ++ l :: b /\ run st a = Some s1 /\ step s1 l = Some s2 /\ run s2 b = Some st'.
 Proof.
-  destruct join_snapshot_witness as (st & Hr & Ha & Hk & Hj).
-  exists witness_join, st. auto.
+  intros H Hin. apply in_split in Hin. destruct Hin as (a & b & ->).
+  destruct (run_split _ _ _ _ _ H) as (s1 & s2 & ? & ? & ?). exists a, b, s1, s2. auto.
+Qed.
+
+Lemma run_stable (I P : state -> Prop) :
+  (forall st l st', I st -> step st l = Some st' -> I st') ->
+  (forall st l st', I st -> P st -> step st l = Some st' -> P st') ->
+  forall sched st st', I st -> P st -> run st sched = Some st' -> I st' /\ P st'.
+Proof.
+  intros HI HP. induction sched; simpl; intros st st' Hi Hp H.
+  - inversion H; subst; auto.
+  - destruct (step st a) eqn:E; try discriminate. eapply IHsched; [| |eauto]; eauto.
+Qed.
+
+(* a shutdown() call that has taken the lock *)
+Definition past_acquire (d : dpc_t) : bool := match d with DSet | DAcquire => false | _ => true end.
+Definition closed (st : state) : Prop :=
+  exists k s, nth_error (sds st) k = Some s /\ past_acquire (dpc s) = true.
+
+Definition sd_ok (s : sd) : Prop :=
+  match dpc s with
+  | DCancel _ => swait s = false
+  | DSnap | DUnlock _ | DJoin _ => swait s = true
+  | _ => True
+  end.
+
+Record sinv (st : state) : Prop := {
+  s_flag : forall k s, nth_error (sds st) k = Some s -> dpc s <> DSet -> flag st = true;
+  s_sdok : forall k s, nth_error (sds st) k = Some s -> sd_ok s;
+  s_closed : closed st -> forall j jb, nth_error (jobs st) j = Some jb -> spc jb <> SAppend /\ spc jb <> SStart;
+  s_inreg : forall j jb, nth_error (jobs st) j = Some jb -> post_append (spc jb) = true -> In j (reg st);
+  s_join : forall k s, nth_error (sds st) k = Some s -> swait s = true ->
+             match dpc s with
+             | DUnlock pend | DJoin pend => forall j, In j (reg st) -> In j pend \/ finished st j = true
+             | DDone => forall j, In j (reg st) -> finished st j = true
+             | _ => True
+             end
+}.
+
+Lemma step_flag st l st' :
+  step st l = Some st' -> flag st' = match l with LSdSet _ => true | _ => flag st end.
+Proof.
+  destruct l; simpl; unfold on_job, on_sd; simpl; intros H; try discriminate.
+  all: step_inv; simpl; auto.
+Qed.
+
+Lemma finished_iff st j : finished st j = true <-> sets_of st j <> 0.
+Proof.
+  unfold finished, sets_of. destruct (nth_error (jobs st) j) as [jb|]; [|split; [discriminate|congruence]].
+  destruct (sets jb); simpl; split; intros; try congruence; try lia; auto.
+Qed.
+
+Lemma finished_mono st l st' j : step st l = Some st' -> finished st j = true -> finished st' j = true.
+Proof.
+  intros H Hf. apply finished_iff. apply finished_iff in Hf.
+  rewrite (step_sets _ _ _ j H). lia.
+Qed.
+
+Lemma reg_mono st l st' j : step st l = Some st' -> In j (reg st) -> In j (reg st').
+Proof.
+  intros H Hin. apply step_globals in H. destruct H as (HR & _). rewrite HR.
+  destruct l; auto. apply in_or_app; auto.
+Qed.
+
+Lemma sd_trans_past st l s s' :
+  sd_trans st l s s' ->
+  past_acquire (dpc s') = match l with LSdSet _ => false | _ => true end /\
+  match l with LSdSet _ | LSdAcquire _ => past_acquire (dpc s) = false | _ => past_acquire (dpc s) = true end.
+Proof.
+  unfold sd_trans. intros (_ & Ht). destruct l; try contradiction.
+  all: repeat match goal with
+              | H : _ /\ _ |- _ => destruct H
+              | H : exists _, _ |- _ => destruct H
+              | H : _ \/ _ |- _ => destruct H
+              end.
+  all: repeat match goal with H : dpc _ = _ |- _ => rewrite H; clear H end; simpl; auto.
+  destruct (swait s); auto.
+Qed.
+
+Lemma closed_fwd st l st' : step st l = Some st' -> closed st -> closed st'.
+Proof.
+  intros H (k & s & Hn & Hp).
+  destruct (step_sd_fwd _ _ _ _ _ H Hn) as [(Hn' & _) | (Hke & s' & Hn' & Ht)].
+  - exists k, s; auto.
+  - exists k, s'. split; auto. destruct (sd_trans_past _ _ _ _ Ht) as (Hp' & Hq).
+    rewrite Hp'. destruct l; auto; congruence.
+Qed.
+
+Definition is_sd_acquire (l : label) : bool := match l with LSdAcquire _ => true | _ => false end.
+
+Lemma closed_back st l st' :
+  step st l = Some st' -> is_sd_acquire l = false -> closed st' -> closed st.
+Proof.
+  intros H Hl (k & s' & Hn & Hp).
+  destruct (step_sd_at _ _ _ _ _ H Hn) as [(Ho & _) | (Hke & s & Ho & Ht)].
+  - exists k, s'; auto.
+  - exists k, s. split; auto. destruct (sd_trans_past _ _ _ _ Ht) as (Hp' & Hq).
+    destruct l; try discriminate; auto; congruence.
+Qed.
+
+(* the shutdown call k has taken the lock once one of its later labels has occurred *)
+Lemma step_closes st l st' k :
+  step st l = Some st' -> sd_of l = Some k -> (forall k', l <> LSdSet k') -> closed st'.
+Proof.
+  intros H Hk Hl. apply step_globals in H. destruct H as (_ & H). rewrite Hk in H.
+  destruct H as (s & s' & Hn & Hss & Ht). exists k, s'. split.
+  - rewrite Hss. apply nth_set_nth_eq. apply nth_error_Some. congruence.
+  - destruct (sd_trans_past _ _ _ _ Ht) as (Hp' & _). rewrite Hp'.
+    destruct l; auto. exfalso. eapply Hl; eauto.
+Qed.
+
+Lemma job_trans_closed l jb jb' :
+  job_trans true l jb jb' -> spc jb <> SAppend -> spc jb <> SStart ->
+  spc jb' <> SAppend /\ spc jb' <> SStart.
+Proof.
+  unfold kill. destruct jb as [t s w p e o n]; destruct l; simpl; intros Ht H1 H2; try contradiction.
+  all: try (destruct ok).
+  all: repeat match goal with H : _ /\ _ |- _ => destruct H end; subst; simpl in *.
+  all: try (destruct p; simpl in *); split; congruence.
+Qed.
+
+Lemma job_trans_post fl l jb jb' :
+  job_trans fl l jb jb' -> post_append (spc jb') = true ->
+  post_append (spc jb) = true \/ exists i, l = LSubAppend i.
+Proof.
+  unfold kill. destruct jb as [t s w p e o n]; destruct l; simpl; intros Ht Hp; try contradiction.
+  all: try (destruct ok).
+  all: repeat match goal with H : _ /\ _ |- _ => destruct H end; subst; simpl in *.
+  all: try (destruct fl; simpl in * ); try (destruct p; simpl in * ); eauto; try discriminate.
+Qed.
+
+Lemma init_sinv tmos waits : sinv (init tmos waits).
+Proof.
+  constructor; simpl.
+  - intros k s Hn Hd. apply nth_error_In, in_map_iff in Hn. destruct Hn as (x & <- & _). exfalso; apply Hd; reflexivity.
+  - intros k s Hn. apply nth_error_In, in_map_iff in Hn. destruct Hn as (x & <- & _). exact I.
+  - intros (k & s & Hn & Hp). apply nth_error_In, in_map_iff in Hn. destruct Hn as (x & <- & _). discriminate.
+  - intros j jb Hn Hp. apply nth_error_In, in_map_iff in Hn. destruct Hn as (x & <- & _). discriminate.
+  - intros k s Hn Hw. apply nth_error_In, in_map_iff in Hn. destruct Hn as (x & <- & _). exact I.
+Qed.
+
+Lemma closed_flag st : sinv st -> closed st -> flag st = true.
+Proof.
+  intros S (k & s & Hn & Hp). eapply s_flag; eauto. intros Hd. rewrite Hd in Hp. discriminate.
+Qed.
+
+(* while some shutdown call has the lock behind it, the registry does not change any more *)
+Lemma reg_same_if_closed st l st' : sinv st -> closed st -> step st l = Some st' -> reg st' = reg st.
+Proof.
+  intros S C H. pose proof (step_globals _ _ _ H) as (HR & _). rewrite HR.
+  destruct l; auto. apply step_jobs in H. simpl in H. destruct H as (jb & jb' & Hn & _ & Hs & _).
+  destruct (s_closed _ S C _ _ Hn) as (Hx & _). congruence.
+Qed.
+
+Lemma step_sinv st l st' : ginv st -> sinv st -> step st l = Some st' -> sinv st'.
+Proof.
+  intros G S H.
+  pose proof (step_flag _ _ _ H) as HF.
+  pose proof (step_globals _ _ _ H) as (HR & _).
+  constructor.
+  - (* s_flag *)
+    intros k s' Hn Hd. destruct (step_sd_at _ _ _ _ _ H Hn) as [(Ho & _) | (Hke & s & Ho & Ht)].
+    + rewrite HF. destruct l; auto; eapply s_flag; eauto.
+    + rewrite HF. destruct (sd_trans_past _ _ _ _ Ht) as (_ & Hq).
+      destruct l; auto; eapply (s_flag _ S _ _ Ho); intros Hd0; rewrite Hd0 in Hq; try discriminate.
+      destruct Ht as (_ & (Hx & _)). congruence.
+  - (* s_sdok *)
+    intros k s' Hn. destruct (step_sd_at _ _ _ _ _ H Hn) as [(Ho & _) | (Hke & s & Ho & Ht)].
+    + eapply s_sdok; eauto.
+    + pose proof (s_sdok _ S _ _ Ho) as Hok. unfold sd_ok in *. destruct Ht as (Hw & Ht).
+      destruct l; try contradiction.
+      all: repeat match goal with
+                  | H : _ /\ _ |- _ => destruct H
+                  | H : exists _, _ |- _ => destruct H
+                  | H : _ \/ _ |- _ => destruct H
+                  end.
+      all: repeat match goal with H : dpc _ = _ |- _ => rewrite H in *; clear H end; simpl; auto; try congruence.
+      destruct (swait s) eqn:E; simpl; congruence.
+  - (* s_closed *)
+    intros C j jb' Hn. destruct (is_sd_acquire l) eqn:El.
+    + destruct l; try discriminate.
+      pose proof (step_lock_owner _ _ _ G H) as HL. simpl in HL. destruct HL as (Hfree & _).
+      pose proof (step_jobs _ _ _ H) as HJ. simpl in HJ. rewrite HJ in Hn.
+      split; intros Hs; pose proof (g_hold _ G _ _ Hn) as Hh; rewrite Hs in Hh;
+        specialize (Hh eq_refl); congruence.
+    + pose proof (closed_back _ _ _ H El C) as C0.
+      destruct (step_job_at _ _ _ _ _ H Hn) as [(Ho & _) | (Hje & jb & Ho & Ht)].
+      * eapply s_closed; eauto.
+      * rewrite (closed_flag _ S C0) in Ht. destruct (s_closed _ S C0 _ _ Ho).
+        eapply job_trans_closed; eauto.
+  - (* s_inreg *)
+    intros j jb' Hn Hp. destruct (step_job_at _ _ _ _ _ H Hn) as [(Ho & _) | (Hje & jb & Ho & Ht)].
+    + eapply reg_mono; eauto. eapply s_inreg; eauto.
+    + destruct (job_trans_post _ _ _ _ Ht Hp) as [Hp0 | (i & ->)].
+      * eapply reg_mono; eauto. eapply s_inreg; eauto.
+      * simpl in Hje. inversion Hje; subst. rewrite HR. apply in_or_app. right. simpl; auto.
+  - (* s_join *)
+    intros k s' Hn Hw. destruct (step_sd_at _ _ _ _ _ H Hn) as [(Ho & _) | (Hke & s & Ho & Ht)].
+    + pose proof (s_join _ S _ _ Ho Hw) as Hj.
+      destruct (dpc s') eqn:Ed; auto.
+      all: assert (C : closed st) by (exists k, s'; rewrite Ed; auto);
+           rewrite (reg_same_if_closed _ _ _ S C H); intros j Hin; specialize (Hj j Hin).
+      * destruct Hj; auto. right. eapply finished_mono; eauto.
+      * destruct Hj; auto. right. eapply finished_mono; eauto.
+      * eapply finished_mono; eauto.
+    + pose proof (s_sdok _ S _ _ Ho) as Hok. unfold sd_ok in Hok.
+      destruct Ht as (Hsw & Ht). rewrite Hsw in Hw. pose proof (s_join _ S _ _ Ho Hw) as Hj.
+      destruct l; try contradiction; simpl in HR.
+      * (* set *) destruct Ht as (_ & ->). exact I.
+      * (* acquire *) destruct Ht as (_ & ->). rewrite Hw. exact I.
+      * (* cancel *) destruct Ht as (p0 & p1 & _ & _ & ->). exact I.
+      * (* snap *) destruct Ht as (_ & ->). rewrite HR. intros j Hin. auto.
+      * (* release *) destruct Ht as (pend & Hd & ->). rewrite Hd in Hj. rewrite HR.
+        intros j Hin. destruct (Hj j Hin); auto. right. eapply finished_mono; eauto.
+      * (* join *) destruct Ht as (j0 & rest & Hd & Hf & ->). rewrite Hd in Hj. rewrite HR.
+        intros j Hin. destruct (Hj j Hin) as [[->|Hr]|Hfin]; auto; right; eapply finished_mono; eauto.
+      * (* return *) destruct Ht as ([Hd|Hd] & ->); rewrite Hd in *.
+        -- congruence.
+        -- rewrite HR. intros j Hin. destruct (Hj j Hin) as [[]|Hfin]. eapply finished_mono; eauto.
+Qed.
+
+Definition inv (st : state) : Prop := ginv st /\ sinv st.
+
+Lemma init_inv tmos waits : inv (init tmos waits).
+Proof. split; [apply init_ginv | apply init_sinv]. Qed.
+
+Lemma step_inv_pres st l st' : inv st -> step st l = Some st' -> inv st'.
+Proof. intros (G & S) H. split; [eapply step_ginv | eapply step_sinv]; eauto. Qed.
+
+Lemma run_inv sched : forall st st', inv st -> run st sched = Some st' -> inv st'.
+Proof.
+  induction sched; simpl; intros st st' I H.
+  - inversion H; subst; auto.
+  - destruct (step st a) eqn:E; try discriminate. eapply IHsched; [|eauto]. eapply step_inv_pres; eauto.
+Qed.
+
+Lemma run_closed sched : forall st st', closed st -> run st sched = Some st' -> closed st'.
+Proof.
+  induction sched; simpl; intros st st' C H.
+  - inversion H; subst; auto.
+  - destruct (step st a) eqn:E; try discriminate. eapply IHsched; [|eauto]. eapply closed_fwd; eauto.
+Qed.
+
+(* (1) once any shutdown() call -- of either kind -- has taken the lock, no job is registered
+   or accepted any more *)
+Lemma closed_after tmos waits pre st l0 k :
+  run (init tmos waits) pre = Some st -> In l0 pre -> sd_of l0 = Some k -> (forall k', l0 <> LSdSet k') ->
+  inv st /\ closed st.
+Proof.
+  intros H Hin Hk Hl. split; [eapply run_inv; [apply init_inv|eauto]|].
+  destruct (run_In _ _ _ _ H Hin) as (a & b & s1 & s2 & -> & Ha & Hs & Hb).
+  eapply run_closed; [|eauto]. eapply step_closes; eauto.
+Qed.
+
+Lemma no_accept_after_lock tmos waits pre l post st k :
+  run (init tmos waits) (pre ++ l :: post) = Some st -> In (LSdAcquire k) pre ->
+  forall j, l <> LSubAppend j /\ l <> LSubStart j.
+Proof.
+  intros H Hin j. destruct (run_split _ _ _ _ _ H) as (s1 & s2 & Ha & Hs & _).
+  destruct (closed_after _ _ _ _ _ k Ha Hin eq_refl) as ((G & S) & C); [discriminate|].
+  split; intros ->; apply step_jobs in Hs; simpl in Hs; destruct Hs as (jb & jb' & Hn & _ & Hx & _);
+    destruct (s_closed _ S C _ _ Hn); congruence.
+Qed.
+
+Lemma no_accept_after_shutdown tmos waits sched st :
+  run (init tmos waits) sched = Some st -> ~ accepted_after_return sched.
+Proof.
+  intros H (pre & post & j & k & -> & Hin).
+  destruct (run_split _ _ _ _ _ H) as (s1 & s2 & Ha & Hs & _).
+  destruct (closed_after _ _ _ _ _ k Ha Hin eq_refl) as ((G & S) & C); [discriminate|].
+  apply step_jobs in Hs; simpl in Hs; destruct Hs as (jb & jb' & Hn & _ & Hx & _).
+  destruct (s_closed _ S C _ _ Hn); congruence.
+Qed.
+
+(* (2) shutdown(wait=True): when it has returned every job ever accepted is delivered, exactly
+   once, and no solver process runs -- and none will: nothing is accepted any more *)
+Lemma run_swait sched : forall st st', run st sched = Some st' -> map swait (sds st') = map swait (sds st).
+Proof.
+  induction sched; simpl; intros st st' H.
+  - inversion H; subst; auto.
+  - destruct (step st a) eqn:E; try discriminate. rewrite (IHsched _ _ H).
+    apply step_globals in E. destruct E as (_ & E). destruct (sd_of a).
+    + destruct E as (s0 & s1 & Hn & -> & (Hw & _)). clear - Hn Hw.
+      revert n Hn; induction (sds st); destruct n; simpl; intros Hn; try discriminate; auto.
+      * inversion Hn; subst. congruence.
+      * f_equal. eauto.
+    + rewrite E; auto.
+Qed.
+
+Lemma swait_of tmos waits sched st k s :
+  run (init tmos waits) sched = Some st -> nth_error (sds st) k = Some s -> nth_error waits k = Some (swait s).
+Proof.
+  intros H Hn. apply run_swait in H. simpl in H. rewrite map_map in H. simpl in H. rewrite map_id in H.
+  rewrite <- H. apply map_nth_error; auto.
+Qed.
+
+Lemma job_running_registered st j jb :
+  inv st -> nth_error (jobs st) j = Some jb -> wpc jb <> WNew -> In j (reg st).
+Proof.
+  intros (G & S) Hn Hw. eapply s_inreg; eauto.
+  pose proof (Forall_nth _ _ _ _ (g_jobs _ G) Hn) as Hok. unfold job_ok, started_spc in Hok.
+  destruct (wpc jb); try congruence; intuition (subst; try match goal with H : spc jb = _ |- _ => rewrite H end; auto).
+Qed.
+
+Lemma finished_not_running st j jb :
+  inv st -> nth_error (jobs st) j = Some jb -> finished st j = true -> sets jb = 1 /\ proc jb <> PRun.
+Proof.
+  intros (G & S) Hn Hf. apply finished_iff in Hf. unfold sets_of in Hf. rewrite Hn in Hf.
+  pose proof (Forall_nth _ _ _ _ (g_jobs _ G) Hn) as Hok. unfold job_ok in Hok.
+  destruct (wpc jb); intuition congruence.
+Qed.
+
+Lemma wait_shutdown_complete tmos waits sched st k :
+  run (init tmos waits) sched = Some st -> nth_error waits k = Some true -> returned st k = true ->
+  forall j, running st j = false /\ (accepted j sched -> deliveries j sched = 1).
+Proof.
+  intros H Hw Hr j.
+  assert (I : inv st) by (eapply run_inv; [apply init_inv|eauto]).
+  unfold returned in Hr. destruct (nth_error (sds st) k) as [s|] eqn:Hn; try discriminate.
+  destruct (dpc s) eqn:Hd; try discriminate.
+  pose proof (swait_of _ _ _ _ _ _ H Hn) as Hw'. rewrite Hw in Hw'. inversion Hw' as [Hsw].
+  destruct I as (G & S). pose proof (s_join _ S _ _ Hn (eq_sym Hsw)) as Hj. rewrite Hd in Hj.
+  split.
+  - unfold running. destruct (nth_error (jobs st) j) as [jb|] eqn:Hjb; auto.
+    destruct (proc jb) eqn:Hp; auto. exfalso.
+    assert (Hreg : In j (reg st)).
+    { apply (job_running_registered st j jb (conj G S) Hjb).
+      pose proof (Forall_nth _ _ _ _ (g_jobs _ G) Hjb) as Hok. unfold job_ok in Hok.
+      intros Hwn. rewrite Hwn in Hok. intuition congruence. }
+    destruct (finished_not_running st j jb (conj G S) Hjb (Hj _ Hreg)) as (_ & Hx). congruence.
+  - intros Hacc. unfold accepted in Hacc.
+    destruct (run_In _ _ _ _ H Hacc) as (a & b & s1 & s2 & -> & Ha & Hs & Hb).
+    assert (Rg : registered s2 j).
+    { apply step_jobs in Hs. simpl in Hs. destruct Hs as (jb & jb' & Hn0 & Hjs & _ & _ & ->).
+      eexists. split; [rewrite Hjs; apply nth_set_nth_eq; apply nth_error_Some; congruence|reflexivity]. }
+    assert (Rg' : registered st j).
+    { clear - Rg Hb. revert s2 Rg Hb. induction b; simpl; intros s2 Rg Hb.
+      - inversion Hb; subst; auto.
+      - destruct (step s2 a) eqn:E; try discriminate. eapply IHb; [|eauto]. eapply registered_step; eauto. }
+    destruct Rg' as (jb & Hjb & Hp).
+    pose proof (s_inreg _ S _ _ Hjb Hp) as Hreg.
+    destruct (finished_not_running st j jb (conj G S) Hjb (Hj _ Hreg)) as (Hs1 & _).
+    pose proof (run_sets _ _ _ j H) as Hsets. rewrite init_sets in Hsets.
+    unfold sets_of in Hsets. rewrite Hjb in Hsets. lia.
+Qed.
+
+(* (3) shutdown(wait=False) / cancel(): a solver process that existed when the cancel task
+   for its job ran is dead afterwards, for good *)
+Definition spawned_b (jb : job) : bool := match wpc jb with WNew | WStarted => false | _ => true end.
+Definition spawned_at (st : state) (j : nat) : Prop :=
+  exists jb, nth_error (jobs st) j = Some jb /\ spawned_b jb = true.
+Definition settled_at (st : state) (j : nat) : Prop :=
+  exists jb, nth_error (jobs st) j = Some jb /\ spawned_b jb = true /\ proc jb <> PRun.
+
+Lemma job_trans_spawned fl l jb jb' :
+  job_trans fl l jb jb' -> spawned_b jb = true ->
+  spawned_b jb' = true /\ (proc jb <> PRun -> proc jb' <> PRun) /\
+  (match l with LSdCancel _ _ => proc jb' <> PRun | _ => True end).
+Proof.
+  unfold kill, spawned_b. destruct jb as [t s w p e o n]; destruct l; simpl; intros Ht Hs; try contradiction.
+  all: try (destruct ok).
+  all: repeat match goal with H : _ /\ _ |- _ => destruct H end; subst; simpl in *; try discriminate.
+  all: try (destruct p; simpl in * ); repeat split; auto; try congruence.
+Qed.
+
+Lemma spawned_step st l st' j : step st l = Some st' -> spawned_at st j -> spawned_at st' j.
+Proof.
+  intros H (jb & Hn & Hs). destruct (step_job_fwd _ _ _ _ _ H Hn) as [(Hn' & _) | (_ & jb' & Hn' & Ht)].
+  - exists jb; auto.
+  - exists jb'. split; auto. apply (job_trans_spawned _ _ _ _ Ht Hs).
+Qed.
+
+Lemma settled_step st l st' j : step st l = Some st' -> settled_at st j -> settled_at st' j.
+Proof.
+  intros H (jb & Hn & Hs & Hp). destruct (step_job_fwd _ _ _ _ _ H Hn) as [(Hn' & _) | (_ & jb' & Hn' & Ht)].
+  - exists jb; auto.
+  - exists jb'. split; auto. destruct (job_trans_spawned _ _ _ _ Ht Hs) as (A & B & _). auto.
+Qed.
+
+Lemma cancel_settles st k j st' : step st (LSdCancel k j) = Some st' -> spawned_at st j -> settled_at st' j.
+Proof.
+  intros H (jb & Hn & Hs). destruct (step_job_fwd _ _ _ _ _ H Hn) as [(_ & Hne) | (_ & jb' & Hn' & Ht)].
+  - simpl in Hne. congruence.
+  - exists jb'. split; auto. destruct (job_trans_spawned _ _ _ _ Ht Hs) as (A & _ & C). auto.
+Qed.
+
+Lemma run_settled sched : forall st st' j, settled_at st j -> run st sched = Some st' -> settled_at st' j.
+Proof.
+  induction sched; simpl; intros st st' j S H.
+  - inversion H; subst; auto.
+  - destruct (step st a) eqn:E; try discriminate. eapply IHsched; [|eauto]. eapply settled_step; eauto.
+Qed.
+
+Lemma run_spawned sched : forall st st' j, spawned_at st j -> run st sched = Some st' -> spawned_at st' j.
+Proof.
+  induction sched; simpl; intros st st' j S H.
+  - inversion H; subst; auto.
+  - destruct (step st a) eqn:E; try discriminate. eapply IHsched; [|eauto]. eapply spawned_step; eauto.
+Qed.
+
+Lemma settled_not_running st j : settled_at st j -> running st j = false.
+Proof. intros (jb & Hn & _ & Hp). unfold running. rewrite Hn. destruct (proc jb); auto. congruence. Qed.
+
+Lemma spawned_after_popen st st' pre j :
+  run st pre = Some st' -> In (LPopen j true) pre -> spawned_at st' j.
+Proof.
+  intros H Hin. destruct (run_In _ _ _ _ H Hin) as (a & b & s1 & s2 & -> & Ha & Hs & Hb).
+  eapply run_spawned; [|eauto]. apply step_jobs in Hs. simpl in Hs.
+  destruct Hs as (jb & jb' & Hn & Hjs & _ & ->). eexists. split.
+  - rewrite Hjs. apply nth_set_nth_eq. apply nth_error_Some. congruence.
+  - reflexivity.
+Qed.
+
+Lemma cancel_kills tmos waits sched st j :
+  run (init tmos waits) sched = Some st -> cancelled_while_spawned j sched -> running st j = false.
+Proof.
+  intros H (pre & post & k & -> & Hin).
+  destruct (run_split _ _ _ _ _ H) as (s1 & s2 & Ha & Hs & Hb).
+  apply settled_not_running. eapply run_settled; [|eauto].
+  eapply cancel_settles; eauto. eapply spawned_after_popen; eauto.
+Qed.
+
+(* ... and shutdown() has run such a cancel task for every process that existed when it took
+   the lock, by the time it returns (either kind of shutdown) *)
+Definition nowait_inv (k j : nat) (st : state) : Prop :=
+  exists s, nth_error (sds st) k = Some s /\
+    match dpc s with
+    | DCancel pend => In j pend \/ settled_at st j
+    | DDone => swait s = false /\ settled_at st j
+    | _ => False
+    end.
+
+Lemma remove1_other j0 j l l' : remove1 j0 l = Some l' -> In j l -> j <> j0 -> In j l'.
+Proof.
+  revert l'; induction l; simpl; intros l' H Hin Hne; try contradiction.
+  destruct (Nat.eqb_spec a j0).
+  - inversion H; subst. destruct Hin; auto. congruence.
+  - destruct (remove1 j0 l) eqn:E; try discriminate. inversion H; subst.
+    destruct Hin as [->|Hin]; [left; auto | right; eauto].
+Qed.
+
+Lemma nowait_inv_step st l st' k j :
+  sinv st -> step st l = Some st' -> spawned_at st j -> nowait_inv k j st -> nowait_inv k j st'.
+Proof.
+  intros S H Sp (s & Hn & Hm). unfold nowait_inv.
+  destruct (step_sd_fwd _ _ _ _ _ H Hn) as [(Hn' & _) | (Hke & s' & Hn' & (Hsw & Ht))].
+  - exists s. split; auto. destruct (dpc s); auto.
+    + destruct Hm; auto. right. eapply settled_step; eauto.
+    + destruct Hm. split; auto. eapply settled_step; eauto.
+  - exists s'. split; auto. pose proof (s_sdok _ S _ _ Hn) as Hok. unfold sd_ok in Hok.
+    destruct l; try contradiction.
+    + destruct Ht as (Hd & _). rewrite Hd in Hm. contradiction.
+    + destruct Ht as (Hd & _). rewrite Hd in Hm. contradiction.
+    + (* cancel k j0 *)
+      simpl in Hke. inversion Hke; subst k0.
+      destruct Ht as (pend & pend' & Hd & Hrm & Hd'). rewrite Hd in Hm, Hok. rewrite Hd'.
+      destruct Hm as [Hin | Hst]; [|right; eapply settled_step; eauto].
+      destruct (Nat.eq_dec j j0) as [->|Hne].
+      * right. eapply cancel_settles; eauto.
+      * left. eapply remove1_other; eauto.
+    + destruct Ht as (Hd & _). rewrite Hd in Hm. contradiction.
+    + destruct Ht as (pend & Hd & _). rewrite Hd in Hm. contradiction.
+    + destruct Ht as (j0 & rest & Hd & _). rewrite Hd in Hm. contradiction.
+    + (* return *)
+      destruct Ht as ([Hd|Hd] & Hd'); rewrite Hd in Hm, Hok; rewrite Hd'.
+      * destruct Hm as [[]|Hst]. split; [congruence|]. eapply settled_step; eauto.
+      * contradiction.
+Qed.
+
+Lemma shutdown_kills_spawned tmos waits sched st k j :
+  run (init tmos waits) sched = Some st -> spawned_before_acquire k j sched ->
+  returned st k = true -> running st j = false.
+Proof.
+  intros H (pre & post & -> & Hin) Hr.
+  destruct (run_split _ _ _ _ _ H) as (s1 & s2 & Ha & Hs & Hb).
+  assert (I1 : inv s1) by (eapply run_inv; [apply init_inv|eauto]).
+  assert (Sp1 : spawned_at s1 j) by (eapply spawned_after_popen; eauto).
+  pose proof (step_globals _ _ _ Hs) as (_ & HG). simpl in HG.
+  destruct HG as (s & s' & Hn & Hss & Hsw & Hd & Hd').
+  destruct (swait s) eqn:Ew.
+  - (* wait=True: nothing runs at all after the return *)
+    assert (Hw : nth_error waits k = Some true).
+    { rewrite <- Ew. eapply swait_of; eauto. }
+    apply (wait_shutdown_complete _ _ _ _ _ H Hw Hr j).
+  - (* wait=False *)
+    assert (I2 : inv s2) by (eapply step_inv_pres; eauto).
+    assert (Sp2 : spawned_at s2 j) by (eapply spawned_step; eauto).
+    assert (N2 : nowait_inv k j s2).
+    { exists s'. split; [rewrite Hss; apply nth_set_nth_eq; apply nth_error_Some; congruence|].
+      rewrite Hd'. left. destruct Sp1 as (jb & Hjb & Hsp).
+      eapply job_running_registered; eauto. unfold spawned_b in Hsp. destruct (wpc jb); congruence. }
+    assert (Hend : inv st /\ (spawned_at st j /\ nowait_inv k j st)).
+    { eapply (run_stable inv (fun x => spawned_at x j /\ nowait_inv k j x)); eauto.
+      - intros; eapply step_inv_pres; eauto.
+      - intros x l x' (Gx & Sx) (A & B) Hx. split; [eapply spawned_step; eauto|eapply nowait_inv_step; eauto]. }
+    destruct Hend as (_ & _ & (sf & Hnf & Hm)).
+    unfold returned in Hr. rewrite Hnf in Hr. destruct (dpc sf); try discriminate.
+    apply settled_not_running. apply Hm.
+Qed.
+
+(* (4) shutdown() never terminates with an exception *)
+Lemma shutdown_never_raises tmos waits sched st k :
+  run (init tmos waits) sched = Some st -> ~ shutdown_raised k sched.
+Proof.
+  intros H Hin. destruct (run_In _ _ _ _ H Hin) as (a & b & s1 & s2 & _ & _ & Hs & _).
+  simpl in Hs. discriminate.
+Qed.
+
+(* (5) shutdown(wait=False) has run a cancel task for EVERY registered job when it returns; hence
+   the only way a process can run after its return is the F6 window: the process was spawned
+   after the cancel task of its job had run *)
+
+Lemma run_snoc st sched l st' :
+  run st (sched ++ [l]) = Some st' -> exists st0, run st sched = Some st0 /\ step st0 l = Some st'.
+Proof.
+  rewrite run_app. destruct (run st sched) as [st0|]; try discriminate. simpl.
+  destruct (step st0 l) eqn:E; try discriminate. intros H; inversion H; subst. eauto.
+Qed.
+
+Lemma running_spawned tmos waits sched : forall st j,
+  run (init tmos waits) sched = Some st -> running st j = true -> In (LPopen j true) sched.
+Proof.
+  induction sched as [|l sched IH] using rev_ind; intros st j H Hr.
+  - simpl in H. inversion H; subst. unfold running, init in Hr. simpl in Hr.
+    destruct (nth_error (map init_job tmos) j) eqn:E; try discriminate.
+    apply nth_error_In, in_map_iff in E. destruct E as (x & <- & _). discriminate.
+  - destruct (run_snoc _ _ _ _ H) as (st0 & H0 & Hs). apply in_or_app.
+    destruct (running st0 j) eqn:Hr0; [left; eauto|]. right.
+    unfold running in Hr, Hr0. destruct (nth_error (jobs st) j) as [jb'|] eqn:Hn; try discriminate.
+    destruct (step_job_at _ _ _ _ _ Hs Hn) as [(Ho & _) | (Hje & jb & Ho & Ht)].
+    + rewrite Ho in Hr0. congruence.
+    + rewrite Ho in Hr0. clear - Hje Ht Hr Hr0.
+      destruct jb as [t s w p e o n]; unfold kill in Ht; destruct l; simpl in *; try contradiction;
+        inversion Hje; subst;
+        try (destruct ok);
+        repeat match goal with H : _ /\ _ |- _ => destruct H end; subst; simpl in *;
+        try (destruct p; simpl in * ); try discriminate; auto.
+Qed.
+
+Lemma every_registered_cancelled tmos waits k sched : forall st s,
+  run (init tmos waits) sched = Some st -> nth_error (sds st) k = Some s -> swait s = false ->
+  match dpc s with
+  | DCancel pend => forall j, In j (reg st) -> In j pend \/ In (LSdCancel k j) sched
+  | DDone => forall j, In j (reg st) -> In (LSdCancel k j) sched
+  | _ => True
+  end.
+Proof.
+  induction sched as [|l sched IH] using rev_ind; intros st s H Hn Hw.
+  - simpl in H. inversion H; subst. simpl in Hn.
+    apply nth_error_In, in_map_iff in Hn. destruct Hn as (x & <- & _). exact I.
+  - destruct (run_snoc _ _ _ _ H) as (st0 & H0 & Hs).
+    assert (I0 : inv st0) by (eapply run_inv; [apply init_inv|eauto]). destruct I0 as (G0 & S0).
+    destruct (step_sd_at _ _ _ _ _ Hs Hn) as [(Ho & _) | (Hke & s0 & Ho & (Hsw & Ht))].
+    + specialize (IH _ _ H0 Ho Hw).
+      destruct (dpc s) eqn:Ed; auto.
+      all: assert (C : closed st0) by (exists k, s; rewrite Ed; auto);
+           rewrite (reg_same_if_closed _ _ _ S0 C Hs); intros j Hin; specialize (IH j Hin).
+      * destruct IH; auto. right. apply in_or_app; auto.
+      * apply in_or_app; auto.
+    + rewrite Hsw in Hw. specialize (IH _ _ H0 Ho Hw).
+      pose proof (s_sdok _ S0 _ _ Ho) as Hok. unfold sd_ok in Hok.
+      pose proof (step_globals _ _ _ Hs) as (HR & _).
+      destruct l; try contradiction; simpl in HR.
+      * destruct Ht as (_ & ->). exact I.
+      * destruct Ht as (_ & ->). rewrite Hw. rewrite HR. intros j Hin. auto.
+      * destruct Ht as (pend & pend' & Hd & Hrm & ->). rewrite Hd in IH. rewrite HR.
+        simpl in Hke. inversion Hke; subst k0.
+        intros j0 Hin. destruct (IH j0 Hin) as [Hp | Hc].
+        -- destruct (Nat.eq_dec j0 j) as [->|Hne].
+           ++ right. apply in_or_app. right. simpl; auto.
+           ++ left. eapply remove1_other; eauto.
+        -- right. apply in_or_app; auto.
+      * destruct Ht as (_ & ->). exact I.
+      * destruct Ht as (pend & _ & ->). exact I.
+      * destruct Ht as (j0 & rest & _ & _ & ->). exact I.
+      * destruct Ht as ([Hd|Hd] & ->); rewrite Hd in IH, Hok.
+        -- rewrite HR. intros j Hin. destruct (IH j Hin) as [[]|Hc]. apply in_or_app; auto.
+        -- congruence.
+Qed.
+
+Lemma nowait_only_late_spawn tmos waits sched st k j :
+  run (init tmos waits) sched = Some st -> nth_error waits k = Some false ->
+  returned st k = true -> running st j = true ->
+  exists pre mid post, sched = pre ++ LSdCancel k j :: mid ++ LPopen j true :: post.
+Proof.
+  intros H Hw Hr Hrun.
+  assert (I : inv st) by (eapply run_inv; [apply init_inv|eauto]).
+  unfold returned in Hr. destruct (nth_error (sds st) k) as [s|] eqn:Hn; try discriminate.
+  destruct (dpc s) eqn:Hd; try discriminate.
+  pose proof (swait_of _ _ _ _ _ _ H Hn) as Hw'. rewrite Hw in Hw'. inversion Hw' as [Hsw].
+  pose proof (every_registered_cancelled _ _ _ _ _ _ H Hn (eq_sym Hsw)) as Hc. rewrite Hd in Hc.
+  assert (Hreg : In j (reg st)).
+  { unfold running in Hrun. destruct (nth_error (jobs st) j) as [jb|] eqn:Hjb; try discriminate.
+    apply (job_running_registered st j jb I Hjb).
+    destruct I as (G & _). pose proof (Forall_nth _ _ _ _ (g_jobs _ G) Hjb) as Hok. unfold job_ok in Hok.
+    intros Hwn. rewrite Hwn in Hok. destruct Hok as (Hp & _). rewrite Hp in Hrun. discriminate. }
+  specialize (Hc j Hreg). apply in_split in Hc. destruct Hc as (pre & rest & ->).
+  pose proof (running_spawned _ _ _ _ _ H Hrun) as Hp.
+  apply in_app_or in Hp. destruct Hp as [Hp | [Hp | Hp]]; try discriminate.
+  - exfalso. assert (Hk : running st j = false).
+    { eapply cancel_kills; eauto. exists pre, rest, k. auto. }
+    congruence.
+  - apply in_split in Hp. destruct Hp as (mid & post & ->). exists pre, mid, post. reflexivity.
 Qed.
